@@ -2,6 +2,7 @@ from typing import Dict, List
 
 import numpy as np
 
+from classy_blocks.construct.edges import Project
 from classy_blocks.construct.flat.face import Face
 from classy_blocks.construct.flat.sketches.disk import QuarterDisk
 from classy_blocks.construct.operations.loft import Loft
@@ -172,6 +173,22 @@ class EighthSphere(Shape):
     def geometry_label(self) -> str:
         """Name of a unique geometry this will project to"""
         return f"sphere_{id(self)}"
+
+    def copy(self):
+        """A copy is a sphere of its own: its faces and edges are projected
+        to the copy's geometry, not to the geometry of the original"""
+        old_label = self.geometry_label
+        new_sphere = super().copy()
+        new_label = new_sphere.geometry_label
+
+        for loft in new_sphere.lofts:
+            loft.side_projects = [new_label if label == old_label else label for label in loft.side_projects]
+
+            for edge in [*loft.bottom_face.edges, *loft.top_face.edges, *loft.side_edges]:
+                if isinstance(edge, Project):
+                    edge.label = [new_label if label == old_label else label for label in edge.label]
+
+        return new_sphere
 
     @property
     def center(self):
